@@ -76,6 +76,7 @@ Step(s, e) ==
          ELSE IF s.seq /\ e.idx # s.idx THEN Warn(SetTh([s EXCEPT !.idx = e.idx], e.g, NoThread), "M:index-after-dispatch")
          ELSE OK(SetTh(s, e.g, NoThread))
     [] e.ev = "panic" -> Bad(s, "P:panic-in-dispatch")
+    [] e.ev = "stuck" -> Bad(s, "P:pool-operation-never-returned")
     [] OTHER -> Bad(s, "DRIVER:unknown-event")
 
 TraceInit == l = 1 /\ mode = "skip" /\ st = Fresh([case |-> "", seq |-> TRUE])
